@@ -3,6 +3,9 @@ from engine.api import Ob, pick, choose, cover, selftest_ob
 from ref import term
 from ref.view import S, TEXT, SIGMA, build2, ranges, check_render
 
+# structural alphabet + verbatim settings holding several groups (rendered verbatim; the terminal reads every code)
+SIGMA1 = SIGMA + (('[38;5;9;1', '38;5;9;1'), ('[1;31', '1;31'), ('[48;2;1;2;3;4', '48;2;1;2;3;4'))
+
 from ansi_string import AnsiString, AnsiStr
 
 LEVEL = 'model_checking'
@@ -14,7 +17,7 @@ REPS_Q = (1, 22, 31, 39, '[38;5;9', 4, 0, 10)
 
 
 def h_pair(n: int, k: int, s1: int, r1: int, s2: int, r2: int, t2: bool, post: int):
-    s = build2(n, k, s1, r1, s2, r2, t2, SIGMA)
+    s = build2(n, k, s1, r1, s2, r2, t2, SIGMA1)
     if s is None:
         return None
     p = pick(post, 0, 5)
@@ -85,14 +88,13 @@ def h_sweep(f: int, y: int, shape: int, reps=REPS):
 
 
 BOUNDS = {
-    'quick': 'values from <=2 apply steps at n=2 over an 8-setting alphabet (all canonical ranges, topmost both), each also sliced / padded / '
+    'quick': 'values from <=2 apply steps at n=2 over an 11-setting alphabet incl. 3 multi-group verbatim settings (all canonical ranges, topmost both), each also sliced / padded / '
              'concatenated / re-parsed / as AnsiStr; all 8 optimize/reset_start/reset_end combinations; free SGR code 0..256 against 8 '
              'representative codes in 4 span shapes',
     'thorough': 'values from 2 apply steps at n=3; free code against %d representative codes (one set + the clear code of each of the 14 '
                 'effect groups, extended colours, bright colours, unknown) in 4 span shapes' % len(REPS),
 }
-OUTSIDE = ('prior terminal state when reset_start=False; settings that are not single well-formed groups (multi-group verbatim settings, '
-           'bare 38/48/58); values needing more than 2 apply steps')
+OUTSIDE = ('prior terminal state when reset_start=False; settings that are not well-formed groups (bare 38/48/58, non-numeric); values needing more than 2 apply steps')
 ASSUMPTIONS = ['code 10 (primary font) is read as the default font; unknown codes are ignored by the terminal']
 KINDS = 'E: builder selectors, ranges, topmost, post-operation, free code 0..256, representative code, span shape (flags looped inside)'
 
@@ -103,7 +105,7 @@ def obligations(tier):
     obs.append(Ob('pair/b1/n2', h_pair, dict(n=2, k=1, **z), need=('rendered', 'starts-unstyled'), budget=600,
                   bounds='n=2, 1 apply step, 6 post-operations', kinds=KINDS))
     n2 = 2 if tier == 'quick' else 3
-    for s1 in range(len(SIGMA)):
+    for s1 in range(len(SIGMA1)):
         for r1 in range(len(ranges(n2))):
             obs.append(Ob('pair/b2/n%d/s%d/r%d' % (n2, s1, r1), h_pair, dict(n=n2, k=2, s1=s1, r1=r1),
                           need=('rendered',), budget=900 if tier == 'quick' else 3000,
